@@ -243,7 +243,7 @@ TB = ("Trusted: Coq 8.16.1 kernel (vm_compute, no native_compute), no axioms (Pr
       "ExtrOcamlBasic extraction + hand-written OCaml driver, the Rust harness and Python generators/oracles. ")
 
 MANIFEST = dict(
-    text="Theorems (Coq 8.16, closed under the global context) about a machine-level Gallina model of lz13::decompress_lz (the bounds-checked decoder that replaced nintendo_lz: repair of F14), LZ10CompressionFormat::decompress, LZ13CompressionFormat::decompress (length check = repair of F13, 0x13 wrapper, bare stream, type-0 stored form) and CompressionFormat::decompress, with usize subtractions in an arithmetic profile and checked Vec indexing: on EVERY stream accepted by a strict LZ10/LZ11 parser written from the format description the decoder returns the expansion of its tokens; EVERY legal token sequence (literals, references of every length form - LZ10 3..18, LZ11 3..65808 -, displacement 1..4096, overlapping copies, both LZ11 header forms) written down by the specification's writer is such a stream and is decoded through all entry points (wrapped, bare, enum); the stored form returns the payload; on ARBITRARY input every entry point returns Ok or Err(InvalidInput) - never a panic - identically in both profiles; empty input, fewer than 4 bytes, unknown type, every strict prefix of a well-formed stream and a reference reaching before the start of the output are errors; every parser-accepted stream is decoded through every entry point (bare, wrapped, enum); decompress(compress x) = x through the enum for both formats whenever compress returns Ok (it does below 2^24 / 2^32 bytes and returns Err(InputTooLarge) above: repair of F21), and the formats crossed (LZ13 entry reads LZ10 output, LZ10 entry rejects the 0x13 wrapper). The model is tied to /repo on every run: extracted model vs real library (debug and release) on bounded-exhaustive token sequences, random legal sequences with every form, every truncation of sampled streams, corruptions, left-over bytes, wrong sizes, random bytes; an independent Python decoder/classifier judges every implementation output.",
+    text="Theorems (Coq 8.16, closed under the global context) about a machine-level Gallina model of lz13::decompress_lz (the bounds-checked decoder that replaced nintendo_lz: repair of F14), LZ10CompressionFormat::decompress, LZ13CompressionFormat::decompress (length check = repair of F13, 0x13 wrapper, bare stream, type-0 stored form) and CompressionFormat::decompress, with usize subtractions in an arithmetic profile and checked Vec indexing: on EVERY stream accepted by a strict LZ10/LZ11 parser written from the format description the decoder returns the expansion of its tokens; EVERY legal token sequence (literals, references of every length form - LZ10 3..18, LZ11 3..65808 -, displacement 1..4096, overlapping copies, both LZ11 header forms) written down by the specification's writer is such a stream and is decoded through all entry points (wrapped, bare, enum); the stored form returns the payload; on ARBITRARY input every entry point returns Ok or Err(InvalidInput) - never a panic - identically in both profiles; empty input, fewer than 4 bytes, unknown type, every strict prefix of a well-formed stream and a reference reaching before the start of the output are errors; every parser-accepted stream is decoded through every entry point (bare, wrapped, enum); decompress(compress x) = x through the enum for both formats whenever compress returns Ok (it does below 2^24 / 2^32 bytes and returns Err(InputTooLarge) above: repair of F21), and the formats crossed (LZ13 entry reads LZ10 output, LZ10 entry rejects the 0x13 wrapper). The model is tied to /repo on every run: extracted model vs real library (debug and release) on bounded-exhaustive token sequences, random legal sequences with every form, every truncation of streams up to 400 bytes and 40 random cuts of longer ones (through the LZ10 and the wrapped-LZ13 entries), corruptions, left-over bytes, wrong sizes, random bytes; an independent Python decoder/classifier judges every implementation output.",
     note=TB + "Modelled, not verified (A-std): Vec, iterators, integer casts, 64-bit usize; the output Vec is a reversed list in the model. Streams whose last token overshoots the announced size or that carry bytes after it are outside the property's named classes: only 'no panic' is demanded and model = implementation is compared. notes/lz.md lists 14 mutations of /repo, all reported by the quick check.",
     technique='Coq proof (decoder simulates the specification-side parser; totality by induction; prefix argument for truncation) + extracted-model differential check (debug and release builds) + independent Python reference decoder/classifier as oracle',
     ref='DESIGN.md section 4 (C11); notes/lz.md')
